@@ -11,7 +11,7 @@
 
    State: cs_value (batch; a scalar is a one-element batch), cs_previous, cs_fuzzy.  A step returns the state
    after the call and the exception it raised, if any. *)
-From Coq Require Import ZArith Bool List PrimFloat.
+From Coq Require Import ZArith Bool List.
 From VF Require Import Num Core Cascade CascadeProofs.
 Import ListNotations.
 
@@ -147,6 +147,8 @@ Proof. cbv zeta. repeat split; try discriminate. repeat constructor; discriminat
 Print Assumptions C12_example_split_XZ.
 
 (* binary64 reading: range [0,1], lock_previous, default 5 (OUT of range), lock_range *)
+Section FloatExample.
+Import PrimFloat.   (* float literals; local to this section *)
 Definition exF_cfg : cascade_cfg PrimFloat.float :=
   {| cc_enabled := true; cc_has_defuzzifier := true; cc_lock_previous := true; cc_default := 5%float;
      cc_lock_range := true; cc_min := 0%float; cc_max := 1%float |}.
@@ -156,6 +158,7 @@ Example C12_example_cascade_F :
   = ([1%float; 0.5%float; 0.5%float; 1%float; 1%float; 0%float],
      {| cs_value := [0.5%float; 1%float; 1%float; 0%float]; cs_previous := 0.5%float; cs_fuzzy := [] |}, None).
 Proof. vm_compute. reflexivity. Qed.
+End FloatExample.
 Print Assumptions C12_example_cascade_F.
 
 (* range theorem: hypotheses inhabited (min <= max, lock_range, a non-NaN committed value) *)
